@@ -283,6 +283,8 @@ def run(ctx):
                 return Obj("restorer")
             if fn.endswith("._update"):
                 return {}
+            if fn == "self_.values":
+                return {"a": Obj("current_a"), "b": Obj("current_b"), "c": Obj("current_c")}
             return NotImplemented
         inst = Obj("target", _param__private=Obj("private", refs={"a": ra}, async_refs={"b": rb}))
         ns = Obj("ns", self=inst)
